@@ -568,12 +568,55 @@ def rule_send_queue(ctx, rule_id="C01.5-send-queue-fifo"):
     fn = ctx.program.func(f"{WSP}._send")
     ctx.analysed(fn)
     g, mf, res = an.get(fn)
-    pops = [n for n in g.stmt_nodes() if n.kind == "stmt" and isinstance(n.ast, ast.Assign) and isinstance(n.ast.value, ast.Call) and
-            norm.text(n.ast.value.func) == "self.send_queue.popleft"]
-    wr = [(n, c) for n in g.stmt_nodes() for c in node_calls(n) if norm.text(c.func) == "self.transport.write"]
-    ok = len(pops) == 1 and len(wr) == 1 and norm.text(wr[0][1].args[0]) == f"{norm.text(pops[0].ast.targets[0])}[0]" and \
-        g.always_preceded_by(wr[0][0], lambda x: x is pops[0])
-    ctx.ob("_send: writes the head element taken with popleft()", ok, "queued write does not send the popped head element", fn.loc())
+    # cell-wise over (queue length, connection state): one wake-up writes exactly the head element (unless the connection is closed, then
+    # it is discarded), leaves the rest queued in order and re-arms itself; an empty queue ends the cycle
+    from ..core.tiny import Tiny, Sym, Buf
+    from .common import inline_private
+    cls_ = ctx.program.cls(WSP)
+    S = {k_: ctx.program.class_const(cls_, k_) for k_ in ("STATE_CLOSED", "STATE_CONNECTING", "STATE_PROXY_CONNECTING", "STATE_OPEN", "STATE_CLOSING")}
+    body = [x for x in fn.node.body if not (isinstance(x, ast.Expr) and isinstance(x.value, ast.Constant))]
+    probs = []
+    ncell = 0
+    try:
+        for qlen in (0, 1, 3):
+            for sname, sval in S.items():
+                items = [[Buf(10 * i, 10 * i + 4), bool(i % 2)] for i in range(qlen)]
+                queue = list(items)
+                wrote, later = [], []
+
+                def oracle(fname, args, kwargs=None):
+                    if fname == "self.transport.write":
+                        wrote.append(args[0] if args else None)
+                        return None
+                    if fname.endswith("call_later"):
+                        later.append(args)
+                        return Sym("delayed-call")
+                    return Sym(f"<{fname}>")
+                env = {"self": Sym("protocol"), "self.send_queue": queue, "self.state": sval, "self.logOctets": False, "self.triggered": True,
+                       "self.trafficStats": Sym("stats", outgoingOctetsWireLevel=0, preopenOutgoingOctetsWireLevel=0), "self.log": Sym("log"),
+                       "self.transport": Sym("transport"), "self._send": Sym("method _send"), "WebSocketProtocol._QUEUED_WRITE_DELAY": 0.00001}
+                env.update({f"WebSocketProtocol.{k_}": v_ for k_, v_ in S.items()})
+                env["WebSocketProtocol"] = Sym("class WebSocketProtocol", _QUEUED_WRITE_DELAY=0.00001, **S)
+                t = Tiny(env, default_call=oracle, inline_self=inline_private(ctx, cls_, exclude=("_send", "_trigger")), opaque_globals=True, model_strings=True)
+                r = t.run(body)
+                ncell += 1
+                tag = f"{qlen} queued, state {sname[6:]}"
+                left = t.env.get("self.send_queue")
+                if r[0] == "raise":
+                    probs.append(f"{tag}: raises {r[1]}")
+                    continue
+                want_w = [] if qlen == 0 or sname == "STATE_CLOSED" else [items[0][0]]
+                if not (len(wrote) == len(want_w) and all(a_ is b_ for a_, b_ in zip(wrote, want_w))):
+                    probs.append(f"{tag}: writes {wrote}, expected {want_w}")
+                if not (isinstance(left, list) and len(left) == max(0, qlen - 1) and all(a_ is b_ for a_, b_ in zip(left, items[1:]))):
+                    probs.append(f"{tag}: queue afterwards {left}, expected the remaining {max(0, qlen - 1)} element(s) in order")
+                if qlen and not (len(later) == 1 and len(later[0]) >= 2 and getattr(later[0][1], "name", "") == "method _send"):
+                    probs.append(f"{tag}: does not re-arm itself for the rest of the queue")
+                if not qlen and (later or t.env.get("self.triggered", t.env["self"].attrs.get("triggered")) is not False):
+                    probs.append(f"{tag}: an empty queue must end the cycle (triggered = False, no further wake-up)")
+    except AnalysisError as e:
+        raise AnalysisError(f"[send-queue] _send outside the modelled subset: {e}")
+    ctx.ob(f"_send: writes the head element taken with popleft() [{ncell} cells]", not probs, "queued write does not send the popped head element: " + "; ".join(probs[:2]), fn.loc())
     ctx.ob("_send: one element per call, then re-armed", any(norm.text(c.func) == "txaio.call_later" and norm.text(c.args[1]) == "self._send" for c in calls_in(fn.node)),
            "_send no longer re-schedules itself", fn.loc())
     tr = ctx.program.func(f"{WSP}._trigger")
@@ -688,7 +731,77 @@ def rule_adapters(ctx):
         raise AnalysisError(f"[C01.6-adapter-agreement] asyncio _consume.process outside the modelled subset: {e}")
 
 
+def rule_stream_frame_data(ctx):
+    """Streaming send API: sendMessageFrameData(chunk) inside a frame announced with beginMessageFrame(L).  Cell-wise (sa.core.tiny) over
+    (L, octets of the frame already sent, chunk length): exactly the part of the chunk that still fits the announced length is masked
+    and written (never a surplus octet: the peer would read it as the next frame header), the return value is what is left of the frame
+    (negative: surplus not consumed), and the send state leaves the frame exactly when the frame is complete."""
+    from ..core.tiny import Tiny, Sym, Buf
+    from .common import inline_private
+    ctx.rule("C01.9-streaming-frame-data")
+    cls_ = ctx.program.cls(WSP)
+    fn = ctx.program.func(f"{WSP}.sendMessageFrameData")
+    ctx.analysed(fn)
+    prm = fn.params()
+    consts = {}
+    for k_ in ("STATE_OPEN", "SEND_STATE_INSIDE_MESSAGE_FRAME", "SEND_STATE_INSIDE_MESSAGE", "SEND_STATE_GROUND", "SEND_STATE_MESSAGE_BEGIN"):
+        consts[k_] = ctx.program.class_const(cls_, k_)
+    body = [x for x in fn.node.body if not (isinstance(x, ast.Expr) and isinstance(x.value, ast.Constant))]
+    probs = []
+    n = 0
+    try:
+        for L in (0, 4, 10):
+            for p0 in sorted({0, min(3, L)}):
+                left = L - p0
+                for ln in sorted({0, 1, max(0, left - 1), left, left + 1, left + 5}):
+                    ptr = [p0]
+                    processed, sent = [], []
+
+                    def process(x):
+                        processed.append(x)
+                        ptr[0] += len(x)
+                        return x
+                    masker = Sym("masker", methods={"pointer": lambda: ptr[0], "process": process})
+
+                    def oracle(fname, args, kwargs=None):
+                        if fname == "self.sendData":
+                            sent.append(args[0] if args else None)
+                            return None
+                        return Sym(f"<{fname}>")
+                    env = {"self": Sym("protocol"), "self.state": consts["STATE_OPEN"], "self.send_state": consts["SEND_STATE_INSIDE_MESSAGE_FRAME"], "self.send_compressed": False,
+                           "self.trafficStats": Sym("stats", outgoingOctetsAppLevel=0, outgoingOctetsWebSocketLevel=0), "self.send_message_frame_masker": masker,
+                           "self.send_message_frame_length": L, prm[1]: Buf(0, ln), "WebSocketProtocol": Sym("class WebSocketProtocol", **consts), "self.log": Sym("log")}
+                    if len(prm) > 2:
+                        env[prm[2]] = False
+                    env.update({f"WebSocketProtocol.{k_}": v_ for k_, v_ in consts.items()})
+                    t = Tiny(env, default_call=oracle, inline_self=inline_private(ctx, cls_, exclude=("sendData",)), opaque_globals=True)
+                    r = t.run(body)
+                    n += 1
+                    tag = f"frame of {L} octets, {p0} already sent, chunk of {ln}"
+                    take = min(ln, left)
+                    if r[0] != "return":
+                        probs.append(f"{tag}: {r[0]} {str(r[1])[:50]}")
+                        continue
+                    wrote = sum(len(x) for x in sent if isinstance(x, Buf))
+                    if wrote != take or any(isinstance(x, Buf) and len(x) and x.lo != 0 for x in sent) or any(not isinstance(x, Buf) for x in sent):
+                        probs.append(f"{tag}: writes {sent} ({wrote} octets), expected the first {take} octet(s) of the chunk")
+                    if sum(len(x) for x in processed) != wrote:
+                        probs.append(f"{tag}: {sum(len(x) for x in processed)} octets masked but {wrote} written")
+                    if r[1] != left - ln:
+                        probs.append(f"{tag}: returns {r[1]}, expected {left - ln}")
+                    st = t.env.get("self.send_state", t.env["self"].attrs.get("send_state"))
+                    want_st = consts["SEND_STATE_INSIDE_MESSAGE"] if p0 + take >= L else consts["SEND_STATE_INSIDE_MESSAGE_FRAME"]
+                    if st != want_st:
+                        probs.append(f"{tag}: send state afterwards {st}, expected {want_st}")
+    except AnalysisError as e:
+        raise AnalysisError(f"[C01.9-streaming-frame-data] sendMessageFrameData outside the modelled subset: {e}")
+    ctx.ob(f"sendMessageFrameData: exactly the octets that fit the announced frame length are masked and written; the rest is reported, not sent [{n} cells]",
+           not probs, "; ".join(probs[:3]), fn.loc())
+    ctx.require(n >= 20, f"only {n} cells")
+
+
 def run(ctx):
+    rule_stream_frame_data(ctx)
     rule_length_coding(ctx)
     rule_header_bits(ctx)
     rule_fragment_loops(ctx)
